@@ -18,7 +18,7 @@ import warnings
 from pywbem import CIMInstanceName, CIMClassName, CIMDateTime
 from pywbem._cim_types import CIMInt, CIMFloat
 
-from mc.core import Acc
+from mc.core import Acc, reset_library_caches
 from mc import domains as D
 from mc import minimize as M
 
@@ -263,6 +263,7 @@ def sval_class(spec):
 
 def roundtrip_verdict(spec, fmt):
     """-> (outcome, what|None, expected, observed); what is None unless the case violates C07"""
+    reset_library_caches()
     try:
         p = D.build(spec)
     except (ValueError, TypeError):
@@ -297,8 +298,33 @@ def roundtrip_verdict(spec, fmt):
     eq = (q == (p if fmt != 'cimobject' else strip_host(p)))
     nan = "'nan'" in repr(spec)
     if diff is None and (eq or nan):
+        # parse results are independent objects: scribbling over the first result (every nested
+        # path, in place) must not change what the same text parses to, nor what an equal path prints
+        before = repr(q)
+        _scribble(q)
+        try:
+            q2 = cls.from_wbem_uri(u)
+            u2 = D.build(spec).to_wbem_uri(fmt)
+        except Exception as exc:   # noqa: the first parse / print of the same input succeeded
+            return ('history-dependent', 'second-parse-raised:' + type(exc).__name__, before, repr(exc))
+        if repr(q2) != before or u2 != u:
+            return ('history-dependent', 'second-parse-differs-after-mutating-first-result', before,
+                    'uri=%r second parse=%r second print=%r' % (u, q2, u2))
         return 'ok:' + fmt, None, None, u
     return ('differs', 'differs:' + (diff or 'eq-false'), repr(p), 'uri=%r parsed=%r' % (u, q))
+
+
+def _scribble(path):
+    """change every component of a parsed path in place, nested reference keys first"""
+    if isinstance(path, CIMInstanceName):
+        for k in list(path.keybindings):
+            v = path.keybindings[k]
+            if isinstance(v, (CIMInstanceName, CIMClassName)):
+                _scribble(v)
+        path.keybindings['Scribble'] = 'x'
+    path.classname = 'Scribbled'
+    path.namespace = 'scribbled/ns'
+    path.host = 'scribbled.host'
 
 
 _NAME = re.compile(r'^[^\W\d]\w*$', re.UNICODE)
